@@ -23,6 +23,31 @@ def zero(e):
         return None, str(ex)
 
 
+def chk(R, ok, res, rule, inst, what, detail, loc, eng='E-ALG'):
+    """ok from zero(): True -> HOLDS.  Otherwise the residual is confirmed non-zero on a witness point before VIOLATED is reported;
+    a residual that merely does not simplify is UNDECIDED (alg.decide_zero)."""
+    if ok:
+        R.holds(rule, inst, detail, loc, eng)
+        return
+    from .. import alg
+    ress = res if isinstance(res, (list, tuple)) else [res]
+    worst = None
+    for r_ in ress:
+        if not isinstance(r_, sp.Basic):
+            worst = worst or ('unknown', 'simplifier error: %s' % (r_,))
+            continue
+        v = alg.decide_zero(r_)
+        if v[0] == 'nonzero':
+            R.violated(rule, inst, '%s  [non-zero, e.g. %s at %s]' % (what, v[2], alg.witness_text(v[1])), loc, eng)
+            return
+        if v[0] == 'unknown':
+            worst = v
+    if worst is None:
+        R.holds(rule, inst, detail, loc, eng)
+    else:
+        R.undecided(rule, inst, '%s: %s' % (what[:160], worst[1]))
+
+
 def run(fx, R, d):
     R.floor('A2', 3)
     R.floor('A1', 2)
@@ -43,16 +68,16 @@ def run(fx, R, d):
     L = S('isolat')
     Ldef = rfor.atom_defs['isolat']
     D = n_ * (lon - lon0_)
-    rad, _ = zero((X - xs_) ** 2 + (ys_ - Y) ** 2 - c_ ** 2 * sp.exp(-2 * n_ * L))
+    rad, rr_ = zero((X - xs_) ** 2 + (ys_ - Y) ** 2 - c_ ** 2 * sp.exp(-2 * n_ * L))
     ang, r2 = zero((X - xs_) * sp.cos(D) - (ys_ - Y) * sp.sin(D))
-    R.check(bool(rad), 'A1', 'LambertConverter::toLambert:radius', '(x-xs)^2 + (ys-y)^2 differs from (c exp(-n L))^2', 'polar radius |c| exp(-n L(lat))', loc_f, 'E-ALG')
-    R.check(bool(ang), 'A1', 'LambertConverter::toLambert:angle', '(x-xs) cos(n dlon) - (ys-y) sin(n dlon) = %s (should vanish)' % (r2,), 'polar angle n (lon - lon0) measured from the -y axis', loc_f, 'E-ALG')
+    chk(R, rad, rr_, 'A1', 'LambertConverter::toLambert:radius', '(x-xs)^2 + (ys-y)^2 differs from (c exp(-n L))^2', 'polar radius |c| exp(-n L(lat))', loc_f, 'E-ALG')
+    chk(R, ang, r2, 'A1', 'LambertConverter::toLambert:angle', '(x-xs) cos(n dlon) - (ys-y) sin(n dlon) = %s (should vanish)' % (r2,), 'polar angle n (lon - lon0) measured from the -y axis', loc_f, 'E-ALG')
     # ---- A4 conformality ------------------------------------------------------------------------
     e = e_
     dL = sp.diff(Ldef, lat)
     target = (1 - e ** 2) / ((1 - e ** 2 * sp.sin(lat) ** 2) * sp.cos(lat))
     ok, res = conformal_identity(Ldef, lat, e)
-    R.check(bool(ok), 'A4', 'LambertConverter::computeIsometricLatitude:derivative', 'dL/dlat - (1-e^2)/((1-e^2 sin^2 lat) cos lat) = %s (should vanish): meridian and parallel scales differ' % (res,),
+    chk(R, ok, res, 'A4', 'LambertConverter::computeIsometricLatitude:derivative', 'dL/dlat - (1-e^2)/((1-e^2 sin^2 lat) cos lat) = %s (should vanish): meridian and parallel scales differ' % (res,),
             'dL/dlat = (1-e^2)/((1-e^2 sin^2) cos): conformal', fx.rel(d['fiso']['loc']), 'E-ALG')
     # ---- secant parameters ------------------------------------------------------------------------
     defs = rsec.atom_defs
@@ -64,13 +89,13 @@ def run(fx, R, d):
         # atoms mean what their names say
         for k, phi in (('1', S('parameters.latitude1')), ('2', S('parameters.latitude2'))):
             okN, rN = zero(defs['N' + k] - a / sp.sqrt(1 - ee ** 2 * sp.sin(phi) ** 2))
-            R.check(bool(okN), 'A2', 'secant:N%s' % k, 'N%s is %s, not a/sqrt(1-e^2 sin^2 lat%s)' % (k, defs['N' + k], k), 'N%s = prime-vertical radius at parallel %s' % (k, k), loc_s, 'E-ALG')
-            okC, _ = zero(defs['coslat' + k] - sp.cos(phi))
-            R.check(bool(okC), 'A2', 'secant:coslat%s' % k, 'coslat%s is %s' % (k, defs['coslat' + k]), 'coslat%s = cos(lat%s)' % (k, k), loc_s, 'E-ALG')
+            chk(R, okN, rN, 'A2', 'secant:N%s' % k, 'N%s is %s, not a/sqrt(1-e^2 sin^2 lat%s)' % (k, defs['N' + k], k), 'N%s = prime-vertical radius at parallel %s' % (k, k), loc_s, 'E-ALG')
+            okC, rC = zero(defs['coslat' + k] - sp.cos(phi))
+            chk(R, okC, rC, 'A2', 'secant:coslat%s' % k, 'coslat%s is %s' % (k, defs['coslat' + k]), 'coslat%s = cos(lat%s)' % (k, k), loc_s, 'E-ALG')
         for k in ('0', '1', '2'):
             want = Ldef.subs({lat: S('parameters.latitude' + k), e_: ee})
-            okL, _ = zero(defs['isolat' + k] - want)
-            R.check(bool(okL), 'A2', 'secant:isolat%s' % k, 'isolat%s is not the isometric latitude (as used by toLambert) of latitude%s' % (k, k), 'isolat%s = L(lat%s)' % (k, k), loc_s, 'E-ALG')
+            okL, rL = zero(defs['isolat' + k] - want)
+            chk(R, okL, rL, 'A2', 'secant:isolat%s' % k, 'isolat%s is not the isometric latitude (as used by toLambert) of latitude%s' % (k, k), 'isolat%s = L(lat%s)' % (k, k), loc_s, 'E-ALG')
         N1, N2, c1, c2 = (sp.Symbol(x, positive=True) for x in ('N1', 'N2', 'coslat1', 'coslat2'))
         L0, L1, L2 = S('isolat0'), S('isolat1'), S('isolat2')
         n, c = S('n'), S('c')
@@ -79,10 +104,10 @@ def run(fx, R, d):
         cdef = defs['c'].subs(pos)
         k1 = (n * c * sp.exp(-n * L1) / (N1 * c1)).subs(c, cdef)
         ok1, r1 = zero(k1 - 1)
-        R.check(bool(ok1), 'A2', 'secant:scale-on-parallel-1', 'scale on the first standard parallel is %s, not 1' % sp.simplify(k1), 'k(lat1) = 1', loc_s, 'E-ALG')
+        chk(R, ok1, r1, 'A2', 'secant:scale-on-parallel-1', 'scale on the first standard parallel is %s, not 1' % sp.simplify(k1), 'k(lat1) = 1', loc_s, 'E-ALG')
         k2 = (n * c * sp.exp(-n * L2) / (N2 * c2)).subs(c, cdef).subs(n, ndef)
         ok2, r2_ = zero(k2 - 1)
-        R.check(bool(ok2), 'A2', 'secant:scale-on-parallel-2', 'scale on the second standard parallel is %s, not 1' % sp.simplify(k2), 'k(lat2) = 1', loc_s, 'E-ALG')
+        chk(R, ok2, r2_, 'A2', 'secant:scale-on-parallel-2', 'scale on the second standard parallel is %s, not 1' % sp.simplify(k2), 'k(lat2) = 1', loc_s, 'E-ALG')
         # A3 origin / W1 aggregate order
         for st in ssec:
             if not isinstance(st.ret, tuple) or len(st.ret) != 5:
@@ -95,7 +120,7 @@ def run(fx, R, d):
             if cond_true:
                 Y0 = ry - c * sp.exp(-n * L0)
                 ok0, r0 = zero(Y0 - S('parameters.y0'))
-                R.check(bool(ok0), 'A3', 'secant:origin-y', 'the origin maps to y = y0 + (%s)' % r0, 'origin -> y0', loc_s, 'E-ALG')
+                chk(R, ok0, r0, 'A3', 'secant:origin-y', 'the origin maps to y = y0 + (%s)' % r0, 'origin -> y0', loc_s, 'E-ALG')
     # ---- tangent parameters -----------------------------------------------------------------------------
     tdefs = rtan.atom_defs
     need = ('N', 'cotlat', 'isolat', 'n', 'C', 'YS')
@@ -104,16 +129,16 @@ def run(fx, R, d):
     else:
         phi0 = S('parameters.latitude0')
         a, ee, k0 = S('ellipsoid.a'), S('ellipsoid.e'), S('parameters.k0')
-        okN, _ = zero(tdefs['N'] - a / sp.sqrt(1 - ee ** 2 * sp.sin(phi0) ** 2))
-        okL, _ = zero(tdefs['isolat'] - Ldef.subs({lat: phi0, e_: ee}))
-        okn, _ = zero(tdefs['n'] - sp.sin(phi0))
-        okc, _ = zero(tdefs['cotlat'] - sp.cos(phi0) / sp.sin(phi0))
-        R.check(bool(okN and okL and okn and okc), 'A2', 'tangent:atoms', 'N / isolat / n / cotlat are not N(lat0), L(lat0), sin(lat0), cot(lat0): %s' % {k: str(v) for k, v in tdefs.items() if k in need[:4]},
+        okN, t1_ = zero(tdefs['N'] - a / sp.sqrt(1 - ee ** 2 * sp.sin(phi0) ** 2))
+        okL, t2_ = zero(tdefs['isolat'] - Ldef.subs({lat: phi0, e_: ee}))
+        okn, t3_ = zero(tdefs['n'] - sp.sin(phi0))
+        okc, t4_ = zero(tdefs['cotlat'] - sp.cos(phi0) / sp.sin(phi0))
+        chk(R, bool(okN and okL and okn and okc), [t1_, t2_, t3_, t4_], 'A2', 'tangent:atoms', 'N / isolat / n / cotlat are not N(lat0), L(lat0), sin(lat0), cot(lat0): %s' % {k: str(v) for k, v in tdefs.items() if k in need[:4]},
                 'N(lat0), L(lat0), n = sin(lat0), cot(lat0)', loc_t, 'E-ALG')
         N, cot, Lt, n, C, YS = S('N'), S('cotlat'), S('isolat'), S('n'), S('C'), S('YS')
         kt = (n * C * sp.exp(-n * Lt) / (N * sp.cos(phi0))).subs(C, tdefs['C']).subs({n: tdefs['n'], cot: tdefs['cotlat']})
         okk, rk = zero(kt - k0)
-        R.check(bool(okk), 'A2', 'tangent:scale-on-parallel', 'scale on the tangent parallel is %s, not k0' % sp.simplify(kt), 'k(lat0) = k0', loc_t, 'E-ALG')
+        chk(R, okk, rk, 'A2', 'tangent:scale-on-parallel', 'scale on the tangent parallel is %s, not k0' % sp.simplify(kt), 'k(lat0) = k0', loc_t, 'E-ALG')
         for st in stan:
             if isinstance(st.ret, tuple) and len(st.ret) == 5:
                 rl, rn, rc, rx, ry = st.ret
@@ -121,14 +146,14 @@ def run(fx, R, d):
                         'returned aggregate is (%s, %s, %s, %s, %s)' % st.ret, 'aggregate = (longitude0, n, C, x0, YS)', loc_t, 'E-SIB')
                 Y0 = (YS - C * sp.exp(-n * Lt)).subs({YS: tdefs['YS'], C: tdefs['C']})
                 ok0, r0 = zero(Y0 - S('parameters.y0'))
-                R.check(bool(ok0), 'A3', 'tangent:origin-y', 'the origin maps to y = y0 + (%s)' % r0, 'origin -> y0', loc_t, 'E-ALG')
+                chk(R, ok0, r0, 'A3', 'tangent:origin-y', 'the origin maps to y = y0 + (%s)' % r0, 'origin -> y0', loc_t, 'E-ALG')
     # ---- A3 on the maps themselves: origin x and central meridian ---------------------------------------
     Xm = X.subs(lon, lon0_)
     okx, rx_ = zero(Xm - xs_)
-    R.check(bool(okx), 'A3', 'toLambert:central-meridian', 'on the central meridian x - xs = %s' % rx_, 'central meridian -> x = xs (= x0)', loc_f, 'E-ALG')
+    chk(R, okx, rx_, 'A3', 'toLambert:central-meridian', 'on the central meridian x - xs = %s' % rx_, 'central meridian -> x = xs (= x0)', loc_f, 'E-ALG')
     Ym = sp.simplify(Y.subs(lon, lon0_))
     oky, ry_ = zero(Ym - (ys_ - c_ * sp.exp(-n_ * L)))
-    R.check(bool(oky), 'A3', 'toLambert:origin-ordinate', 'on the central meridian y = %s; with ys = y0 + c exp(-n L0) the origin then maps to y0 + (%s), non-zero when c < 0 (southern cones)' % (Ym, ry_),
+    chk(R, oky, ry_, 'A3', 'toLambert:origin-ordinate', 'on the central meridian y = %s; with ys = y0 + c exp(-n L0) the origin then maps to y0 + (%s), non-zero when c < 0 (southern cones)' % (Ym, ry_),
             'y(lat, lon0) = ys - c exp(-n L(lat))', loc_f, 'E-ALG')
     check_wiring(fx, R)
     check_inverse(fx, R, d, X, Y, L, Ldef, D)
@@ -221,17 +246,15 @@ def check_inverse(fx, R, d, X, Y, L, Ldef, D):
             a2 = arg2.subs(c_, sign * cpos)
             a2 = sp.simplify(sp.expand_log(sp.simplify(a2), force=True))
             ok, res = zero(a2 - L)
-            if ok:
-                R.holds('A5', 'toWGS84:isometric-latitude/%s' % name, 'recovers L for c %s 0' % ('>' if sign > 0 else '<'), loc, 'E-ALG')
-            else:
-                R.violated('A5', 'toWGS84:isometric-latitude', 'substituting the forward map, the isometric latitude handed to computeLatitude is %s instead of L for cones with c %s 0 (%s hemisphere)' % (
-                    res if res is not None else a2, '>' if sign > 0 else '<', name), loc, 'E-ALG')
+            chk(R, ok, res if isinstance(res, sp.Basic) else a2 - L, 'A5', 'toWGS84:isometric-latitude' + ('' if not ok else '/%s' % name),
+                'substituting the forward map, the isometric latitude handed to computeLatitude is %s instead of L for cones with c %s 0 (%s hemisphere)' % (
+                    res if res is not None else a2, '>' if sign > 0 else '<', name), 'recovers L for c %s 0' % ('>' if sign > 0 else '<'), loc)
         R.check(latr.args[1] == e_, 'A5', 'toWGS84:eccentricity', 'computeLatitude receives %s as eccentricity' % latr.args[1], 'uses the converter eccentricity', loc, 'E-ALG')
     # longitude
     th = defs.get('theta')
     lonx = lonr.subs(S('theta'), sp.Symbol('TH', real=True)) if isinstance(lonr, sp.Basic) else None
-    okform, _ = zero(lonx - (lon0_ + sp.Symbol('TH', real=True) / n_)) if lonx is not None else (False, None)
-    R.check(bool(okform), 'A5', 'toWGS84:longitude-form', 'longitude is %s, expected longitude0 + theta/n' % lonr, 'lon = lon0 + theta/n', loc, 'E-ALG')
+    okform, rform = zero(lonx - (lon0_ + sp.Symbol('TH', real=True) / n_)) if lonx is not None else (False, None)
+    chk(R, okform, rform, 'A5', 'toWGS84:longitude-form', 'longitude is %s, expected longitude0 + theta/n' % lonr, 'lon = lon0 + theta/n', loc, 'E-ALG')
     if th is None:
         R.undecided('A5', 'toWGS84:theta', 'theta atom not found')
     else:
@@ -239,7 +262,7 @@ def check_inverse(fx, R, d, X, Y, L, Ldef, D):
         if ths.func == sp.atan:
             q = sp.simplify(ths.args[0])
             ok, res = zero(q - sp.tan(D))
-            R.check(bool(ok), 'A5', 'toWGS84:theta', 'tan(theta) - tan(n dlon) = %s after substituting the forward map' % res, 'theta = n (lon - lon0)', loc, 'E-ALG')
+            chk(R, ok, res, 'A5', 'toWGS84:theta', 'tan(theta) - tan(n dlon) = %s after substituting the forward map' % res, 'theta = n (lon - lon0)', loc, 'E-ALG')
         elif ths.func == sp.atan2:
             yy, xx = ths.args
             ok, res = zero(yy * sp.cos(D) - xx * sp.sin(D))
@@ -254,7 +277,7 @@ def check_inverse(fx, R, d, X, Y, L, Ldef, D):
             elif ok:
                 R.holds('A5', 'toWGS84:theta', 'atan2 arguments have a positive common factor', loc, 'E-ALG')
             else:
-                R.violated('A5', 'toWGS84:theta', 'atan2 arguments are not (R sin(n dlon), R cos(n dlon)): residual %s' % res, loc, 'E-ALG')
+                chk(R, False, res, 'A5', 'toWGS84:theta', 'atan2 arguments are not (R sin(n dlon), R cos(n dlon)): residual %s' % res, '', loc)
         else:
             R.undecided('A5', 'toWGS84:theta', 'theta form not recognised: %s' % th)
     # latitude iteration fixed point
@@ -341,5 +364,5 @@ def check_latitude_iteration(fx, R, d, Ldef):
             R.holds('A6', 'computeLatitude:tolerance-below-resolution', 'tolerance %g is above the spacing of doubles at pi/2 (%.3g)' % (tol, ulp), loc, 'E-INT')
         R.check(0 < tol <= bound, 'A6', 'computeLatitude:tolerance', 'the latitude iteration stops at |delta| < %g; with contraction factor about e^2 <= 0.01 the error can reach %.3g rad, above the 1e-11 rad of the '
                 'statement (tolerance must not exceed %.3g)' % (tol, tol * qf / (1 - qf), bound), 'tolerance %g <= %.3g' % (tol, bound), loc, 'E-INT')
-    R.check(res == 0, 'A5', 'computeLatitude:fixed-point', 'with L = L(phi) the update gives lat\' - phi = %s (should vanish: 2 atan(tan(pi/4+phi/2)) - pi/2 = phi)' % res,
+    chk(R, res == 0, res, 'A5', 'computeLatitude:fixed-point', 'with L = L(phi) the update gives lat\' - phi = %s (should vanish: 2 atan(tan(pi/4+phi/2)) - pi/2 = phi)' % res,
             'true latitude is a fixed point of the update', loc, 'E-ALG')
